@@ -19,9 +19,9 @@ structure TextTx where
   lines : List Bytes       -- lines of it not yet loaded
   cur : Bytes              -- `_currentSendText` from `_currentSendOffset` on
   queue : List (List Bytes)
-  eol : Bytes
 
-def textSettle (t0 : TextTx) : TextTx × Bool :=
+/-- `eol` = the end-of-line string the sender was given (`SetOutgoingEndOfLineString`, constant over the stream) -/
+def textSettle (eol : Bytes) (t0 : TextTx) : TextTx × Bool :=
   let t := if t0.hasMsg then t0 else
     match t0.queue with
     | [] => t0
@@ -29,13 +29,13 @@ def textSettle (t0 : TextTx) : TextTx × Bool :=
   if !t.hasMsg then (t, false)
   else if t.cur.isEmpty then
     match t.lines with
-    | l :: ls => ({ t with cur := l ++ t.eol, lines := ls }, false)
+    | l :: ls => ({ t with cur := l ++ eol, lines := ls }, false)
     | [] => ({ t with hasMsg := false }, true)
   else (t, false)
 
-def textTx : TxM TextTx where
+def textTx (eol : Bytes) : TxM TextTx where
   zeroStops := false
-  settle := textSettle
+  settle := textSettle eol
   cur := fun t => if t.hasMsg then t.cur else []
   advance := fun t n => { t with cur := t.cur.drop n }
   again := fun _ n => decide (0 < n)
@@ -62,14 +62,14 @@ def textRx (readSize : Nat) : RxM TextRx Bytes where
   onRead := fun s c => textScan c [] s []
   again := fun _ _ _ => false
 
-def textGw (readSize limit : Nat) : Gw TextTx TextRx (List Bytes) Bytes where
-  tx := textTx
+def textGw (readSize limit : Nat) (eol : Bytes) : Gw TextTx TextRx (List Bytes) Bytes where
+  tx := textTx eol
   rx := textRx readSize
   enqueue := fun t m => { t with queue := t.queue ++ [m] }
   txFuel := fun _ _ => limit
   hasOut := fun t => t.hasMsg || !t.queue.isEmpty
 
-def textInitTx (eol : Bytes) : TextTx := { hasMsg := false, lines := [], cur := [], queue := [], eol := eol }
+def textInitTx : TextTx := { hasMsg := false, lines := [], cur := [], queue := [] }
 def textInitRx : TextRx := { carry := [], prevCR := false }
 
 end Muscle.Gateway
